@@ -14,7 +14,7 @@ package gcsca
 //@ func (*CertificateAuthority).writeIfAllowed
 //@   requires ca != nil && ca.Storage != nil
 //@   assigns nothing
-//@   modifies diskHas, wroteAfterManifest, manifestWrites, objWrites, curObj, wroteFull, clobbers, diskData
+//@   modifies diskHas, wroteAfterManifest, manifestWrites, objWrites, curObj, wroteFull, clobbers, diskData, lastWriteOK
 //@   ensures[C11] err == nil ==> diskHas[path]
 //@   ensures[C11] forall(o, string, old(diskHas)[o] ==> diskHas[o])
 //@   ensures[C11] path != "keyManifest.textproto" ==> manifestWrites == old(manifestWrites)
@@ -33,7 +33,7 @@ package gcsca
 //@   requires ca != nil && ca.Storage != nil && manifest != nil
 //@   requires[C11] forall(i, 0 <= i && i < len(manifest.Entries) ==> manifest.Entries[i] != nil && diskHas[manifest.Entries[i].ObjectPath] && manifest.Entries[i].ObjectPath != "keyManifest.textproto")
 //@   assigns manifest.Entries, manifest.Entries[*cap]
-//@   modifies diskHas, wroteAfterManifest, manifestWrites, objWrites, curObj, wroteFull, clobbers, diskData
+//@   modifies diskHas, wroteAfterManifest, manifestWrites, objWrites, curObj, wroteFull, clobbers, diskData, lastWriteOK
 //@   ensures[C11] forall(i, 0 <= i && i < len(manifest.Entries) ==> manifest.Entries[i] != nil && diskHas[manifest.Entries[i].ObjectPath] && manifest.Entries[i].ObjectPath != "keyManifest.textproto")
 //@   ensures[C11] forall(o, string, old(diskHas)[o] ==> diskHas[o])
 //@   ensures[C11] manifestWrites == old(manifestWrites) && (old(manifestWrites) == 0 ==> wroteAfterManifest == old(wroteAfterManifest))
@@ -63,16 +63,18 @@ package gcsca
 //@ func (*CertificateAuthority).writeManifest
 //@   requires ca != nil && ca.Storage != nil
 //@   assigns nothing
-//@   modifies diskHas, wroteAfterManifest, manifestWrites, objWrites, curObj, wroteFull, clobbers, diskData, marshalOf
+//@   modifies diskHas, wroteAfterManifest, manifestWrites, objWrites, curObj, wroteFull, clobbers, diskData, marshalOf, lastWriteOK
 //@   ensures[C11] (manifestWrites == old(manifestWrites) && wroteAfterManifest == old(wroteAfterManifest)) || (manifestWrites == old(manifestWrites) + 1 && wroteAfterManifest == (old(wroteAfterManifest) || old(manifestWrites) > 0))
 //@   ensures[C11] err == nil ==> manifestWrites == old(manifestWrites) + 1
+// (success is reported only when the manifest object was actually stored)
+//@   ensures[C10,C11] err == nil ==> lastWriteOK && diskHas["keyManifest.textproto"]
 //@   ensures[C11] forall(o, string, old(diskHas)[o] ==> diskHas[o])
 
 //@ func (*CertificateAuthority).Finalize
 //@   requires ca != nil && ca.Storage != nil && ca.RootPath != "keyManifest.textproto" && ctx != nil
 //@   requires[C11] manifestWrites == 0 && !wroteAfterManifest && storeConsistent
 //@   requires[C11] ca.manifest != nil ==> forall(i, 0 <= i && i < len(ca.manifest.Entries) ==> ca.manifest.Entries[i] != nil && diskHas[ca.manifest.Entries[i].ObjectPath] && ca.manifest.Entries[i].ObjectPath != "keyManifest.textproto")
-//@   modifies diskHas, wroteAfterManifest, manifestWrites, objWrites, curObj, wroteFull, clobbers, diskData, marshalOf, pbsrc, pbok
+//@   modifies diskHas, wroteAfterManifest, manifestWrites, objWrites, curObj, wroteFull, clobbers, diskData, marshalOf, pbsrc, pbok, lastWriteOK
 //@   sweep[C11] nilinvoke nilmap
 //@   ensures[C11] !wroteAfterManifest && manifestWrites <= 1
 //@   ensures[C11] manifestWrites == 1 ==> ca.manifest != nil && forall(i, 0 <= i && i < len(ca.manifest.Entries) ==> ca.manifest.Entries[i] != nil && diskHas[ca.manifest.Entries[i].ObjectPath])
